@@ -837,6 +837,8 @@ func (g *gen) behC13() M {
 			stp := send(m)
 			if g.chance(0.4) {
 				stp["nowait"] = true
+			} else if g.chance(0.3) && m["t"] != "Big" {
+				stp["cut"] = 1 + g.rng.Intn(40) // delivered in two pieces (inside the header, or inside the body)
 			}
 			steps = append(steps, stp)
 		}
@@ -1095,6 +1097,9 @@ func (g *gen) behC10() M {
 				st := M{"id": cid, "cols": g.cols(1), "oids": []any{}, "prog": []any{M{"op": "copyin", "fmt": 0}, M{"op": "copyread", "onerr": "ret"}, M{"op": "copyread", "onerr": "ret"}, M{"op": "complete", "tag": "COPY"}, M{"op": "ret", "r": "nil"}}}
 				steps = append(steps, send(M{"t": "Q", "q": M{"id": cid, "parse": "ok", "stmts": []any{st}}}), send(M{"t": "d"}),
 					send(M{"t": "Big", "ty": g.pick("d", "Q", "U"), "over": 1 + g.rng.Intn(2*L)}), send(M{"t": "c"}))
+				if g.chance(0.4) {
+					run.AsM(steps[len(steps)-2])["glue"] = true
+				}
 				continue
 			}
 			m = M{"t": "H"}
@@ -1102,6 +1107,8 @@ func (g *gen) behC10() M {
 		st := send(m)
 		if g.chance(0.3) {
 			st["nowait"] = true
+		} else if g.chance(0.3) {
+			st["glue"] = true // in one write with the message behind it: what follows an oversized message is already there
 		}
 		steps = append(steps, st)
 	}
@@ -1181,8 +1188,13 @@ func (g *gen) scnC14() M {
 	table := []any{}
 	cells := 0
 	hdr := g.chance(0.8)
+	ext := 0
 	if hdr {
 		cells += 4
+		if g.chance(0.3) {
+			ext = 1 + g.rng.Intn(3) // a header extension area, which readers skip
+			cells += ext
+		}
 	}
 	for r := 0; r < nrows; r++ {
 		row := []any{}
@@ -1274,7 +1286,7 @@ func (g *gen) scnC14() M {
 		}
 	}
 	return M{"table": table, "hdr": hdr, "trailer": trailer, "corrupt": corrupt, "cuts": []any{}, "bytecuts": bytecuts,
-		"ncols": ncols, "emptychunks": g.chance(0.2), "limit": []int{0, 0, 0, 64, 100, 256}[g.rng.Intn(6)]}
+		"ncols": ncols, "ext": ext, "emptychunks": g.chance(0.2), "limit": []int{0, 0, 0, 64, 100, 256}[g.rng.Intn(6)]}
 }
 
 // behC09: rows over all 13 types, 1..8 columns, up to 10 rows, random NULL
